@@ -45,6 +45,11 @@ func xtimeAttrEntry() *entry {
 					return
 				}
 				c.Sig("%s:doc:%v", typ, err == nil)
+				// the same value again as the target of a second attribute
+				s2 := g.docValue()
+				c.Count("reused_target_decodes", 1)
+				c.Count("reused:"+typ, 1)
+				guard(c, typ, "UnmarshalXMLAttr into a reused target", func() { _ = t.UnmarshalXMLAttr(xml.Attr{Name: xml.Name{Local: "stamp"}, Value: s2}) })
 				return
 			}
 			t := g.tm()
@@ -96,6 +101,8 @@ type attrCodec struct {
 	canon   func(v int) bool
 	marshal func(v int) (xml.Attr, error)
 	unmarsh func(a xml.Attr) (int, error)
+	// twice decodes a and then b into one variable
+	twice func(a, b xml.Attr) error
 }
 
 var attrCodecs = map[string]attrCodec{
@@ -111,6 +118,11 @@ var attrCodecs = map[string]attrCodec{
 			err := (&x).UnmarshalXMLAttr(a)
 			return int(x), err
 		},
+		twice: func(a, b xml.Attr) error {
+			var x muc.Affiliation
+			_ = (&x).UnmarshalXMLAttr(a)
+			return (&x).UnmarshalXMLAttr(b)
+		},
 	},
 	"muc.Role": {
 		values: func() []int { return []int{0, 1, 2, 3, 4, 200} },
@@ -124,6 +136,11 @@ var attrCodecs = map[string]attrCodec{
 			err := (&x).UnmarshalXMLAttr(a)
 			return int(x), err
 		},
+		twice: func(a, b xml.Attr) error {
+			var x muc.Role
+			_ = (&x).UnmarshalXMLAttr(a)
+			return (&x).UnmarshalXMLAttr(b)
+		},
 	},
 	"commands.NoteType": {
 		values: func() []int { return []int{-128, -1, 0, 1, 2, 3, 127} },
@@ -135,6 +152,11 @@ var attrCodecs = map[string]attrCodec{
 			var x commands.NoteType
 			err := (&x).UnmarshalXMLAttr(a)
 			return int(x), err
+		},
+		twice: func(a, b xml.Attr) error {
+			var x commands.NoteType
+			_ = (&x).UnmarshalXMLAttr(a)
+			return (&x).UnmarshalXMLAttr(b)
 		},
 	},
 	"crypto.Hash(attr)": {
@@ -153,6 +175,11 @@ var attrCodecs = map[string]attrCodec{
 			var x crypto.Hash
 			err := (&x).UnmarshalXMLAttr(a)
 			return int(x), err
+		},
+		twice: func(a, b xml.Attr) error {
+			var x crypto.Hash
+			_ = (&x).UnmarshalXMLAttr(a)
+			return (&x).UnmarshalXMLAttr(b)
 		},
 	},
 }
@@ -173,6 +200,12 @@ func attrEnumEntry(name string) *entry {
 					return
 				}
 				c.Sig("%s:doc:%v", typ, err == nil)
+				s2 := g.docValue()
+				c.Count("reused_target_decodes", 1)
+				c.Count("reused:"+typ, 1)
+				guard(c, typ, "UnmarshalXMLAttr into a reused target", func() {
+					_ = codec.twice(xml.Attr{Name: xml.Name{Local: "a"}, Value: s}, xml.Attr{Name: xml.Name{Local: "a"}, Value: s2})
+				})
 				return
 			}
 			vals := codec.values()
@@ -360,6 +393,8 @@ func pubsubConditionEntry() *entry {
 				return
 			}
 			c.Sig("%s:doc:%s:%v", typ, muts[0], err == nil)
+			cond2 := pubsub.Condition(g.r.Intn(23))
+			reuseCheck(c, e, "UnmarshalXML(document)", d, []byte(fmt.Sprintf(`<%s xmlns="%s"/>`, cond2.String(), nsPubsubErrors)))
 			return
 		}
 		c.Sample(attrSample{Type: typ, Mode: "named-element", Value: cond.String(), Attr: string(base)})
